@@ -396,18 +396,19 @@ def apply_faults(world, data, faults, fname):
 
                 if ce - he >= len(rep) > 0:
                     data = data[:ce - len(rep)] + rep + data[ce:]
-        elif kind == 'content_byte':
-            # replace one byte inside the content of section i
+        elif kind == 'content_bytes':
+            # overwrite bytes inside the content of section i (same length)
             spans = _spans(data)
             i = int(f['section'])
 
             if 0 <= i < len(spans):
                 hs, he, ce = spans[i]
                 off = int(f['off'])
+                rep = bytes.fromhex(f['hex'])
 
-                if 0 <= off < ce - he:
-                    data = data[:he + off] + bytes([int(f['to']) & 255]) + \
-                        data[he + off + 1:]
+                if 0 <= off and off + len(rep) <= ce - he:
+                    data = data[:he + off] + rep + \
+                        data[he + off + len(rep):]
         elif kind == 'empty_content':
             spans = _spans(data)
             i = int(f['section'])
